@@ -142,6 +142,51 @@ def tree_name(tree):
     return None
 
 
+def reported_role(tu):
+    """The expectation's 'already reported' flag, by role rather than by name: the only boolean member of
+    call_matcher.  -> (erased field name, value that means 'reported'); the value is the negation of the member's
+    initial value (an expectation starts out as not yet reported).  AnalysisBroken when not identifiable."""
+    r = tu.__dict__.get("_reported_role")
+    if r is not None:
+        return r
+    cand = []
+    for c in tu.cls_by_qe.get(NS + "call_matcher", []):
+        bs = [erase(f["q"]) for f in c.get("fields", ()) if f["t"] in ("bool", "_Bool")]
+        if bs:
+            cand = bs
+            break
+    if len(cand) != 1:
+        raise AnalysisBroken("the expectation's reported flag is not identified (boolean members of call_matcher: %s)" % cand)
+    field = cand[0]
+    init = None
+    for f in tu.find(NS + "call_matcher::call_matcher"):
+        for b, e in f.events():
+            if e["e"] == "init" and erase(e.get("field", "")) == field and isinstance(e.get("x"), list) and \
+                    e["x"][:1] == ["bool"]:
+                init = bool(e["x"][1])
+    if init is None:
+        raise AnalysisBroken("initial value of %s not found" % field)
+    r = (field, not init)
+    tu.__dict__["_reported_role"] = r
+    return r
+
+
+def is_set_reported(tu, ev):
+    """event = assignment of the 'reported' value to the reported flag -> True; of the other value -> False; else None"""
+    if ev["e"] != "assign" or ev.get("op") != "=":
+        return None
+    lhs = strip_casts(ev.get("lhs"))
+    if not (isinstance(lhs, list) and lhs[:1] == ["member"]):
+        return None
+    field, val = reported_role(tu)
+    if erase(lhs[1]) != field:
+        return None
+    rhs = strip_casts(ev.get("rhs"))
+    if isinstance(rhs, list) and rhs[:1] == ["bool"]:
+        return bool(rhs[1]) == val
+    return None
+
+
 def strip_elidable(t):
     """C++14 spells a by-value argument / result as an elidable copy construction of the operand"""
     while isinstance(t, list) and len(t) >= 5 and t[0] == "ctor" and t[4] is True and len(t[3]) == 1:
